@@ -70,7 +70,7 @@ func check(text string) (f *fail, excluded string, accepted bool, nstmts int) {
 
 func run(c *core.Ctx) {
 	sp, idx := lexspace.Find(c.Tier, c.Shard)
-	c.Res.Bound = "L1: all strings of <= 6 (thorough 7; 8 over a 10-symbol sub-alphabet) symbols over a 15-symbol lexical alphabet; L2: <= 5 (7) lexical pieces of 17; L2s: one statement whose argument is <= 6 (7) pieces of 13, keyword k / pattern / tab-indented"
+	c.Res.Bound = "L1: all strings of <= 6 (thorough 7; 8 over a 10-symbol sub-alphabet) symbols over a 15-symbol lexical alphabet; L2: <= 5 (7) lexical pieces of 17; L2s: one statement whose argument is <= 6 (7) pieces of 13, keyword k / pattern / tab-indented, and <= 5 (6) pieces after a same-line comment or single-quoted piece holding a multi-byte rune"
 	n := 0
 	lexspace.Enumerate(sp, idx, func(text string, syms int) bool {
 		if c.Expired() {
